@@ -10,6 +10,7 @@ Search (real code only):
                    every derived sentence must be accepted by the engine
   `history`        one SyntaxParser instance over a sequence of texts (indent units, rejects in between) == a fresh instance per text
   `layout`         the same derivation with line breaks + arbitrary indentation inside brackets (before / between blocks) gives the same tree
+  `cost`           the engine's work (counted _match_symbol calls) against the nesting depth of parentheses / blocks: geometric growth is a finding
   `mutated`        mutated sentences are accepted or rejected with Errors.Syntax naming an input token and an existing line
 """
 from __future__ import annotations
@@ -249,7 +250,8 @@ def stream_engine_py(ctx: Ctx) -> Stream:
 		if c:
 			cases.append(c)
 	st = common.correspond('engine-py', cases, 'engine', classify=lambda d: f"{d['kind']}:{d['outcome']}")
-	st.note = ('real SyntaxParser(py_rules()).parse(text, "entry").simplify() / str(Errors.Syntax) vs model `parse` on the real token list '
+	cut = f'[cut short: wall budget {dl.seconds} s over or {slow[0]} calls exceeded their CPU budget; {len(cases)} cases compared] ' if over() else ''
+	st.note = cut + ('real SyntaxParser(py_rules()).parse(text, "entry").simplify() / str(Errors.Syntax) vs model `parse` on the real token list '
 		'(strings, source maps, regexp classes); sentences sampled from py_gram rules (expression and statement level), 1-2 token-level mutations, edge texts')
 	return st
 
@@ -759,6 +761,69 @@ def search_layout(ctx: Ctx) -> SearchResult:
 	return res
 
 
+def search_cost(ctx: Ctx) -> SearchResult:
+	"""How the engine's WORK grows with nesting depth — counted, not timed: the number of `_match_symbol` calls for `((…a…))` and for
+	nested `if` blocks at depth 1, 2, 3, …. A parser that builds CPython's trees for the sentences of the grammar has to return them:
+	CPython's parser is linear; geometric growth per level (every alternative of `primary` / `atom` / `statement` re-parses the same
+	inner text before ordered choice moves on) means a 25-character expression never returns in practice."""
+	from data.syntax.py_rules import py_rules
+	from rogw.tranp.implements.syntax.tranp.syntax import SyntaxParser
+	from rogw.tranp.implements.syntax.tranp.tokenizer import Tokenizer
+	res = SearchResult('the number of _match_symbol calls grows at most polynomially with the nesting depth of parentheses / blocks (counted on the real engine; growth factor per level < 2)')
+	hist: Counter[str] = Counter()
+
+	class Counting(SyntaxParser):
+		calls = 0
+
+		def _match_symbol(self, tokens: Any, context: Any, route: str) -> Any:
+			self.calls += 1
+			return super()._match_symbol(tokens, context, route)
+
+	def paren(d: int) -> str:
+		return 'x = ' + '(' * d + 'a' + ')' * d + '\n'
+
+	def blocks(d: int) -> str:
+		return ''.join('\t' * i + 'if a:\n' for i in range(d)) + '\t' * d + 'b = 1\n'
+
+	for kind, make, depths in (('parentheses', paren, range(1, ctx.scale(6, 7))), ('blocks', blocks, range(1, ctx.scale(5, 6)))):
+		res.cases += 1
+		calls: list[int] = []
+		outcome = 'ok'
+		for d in depths:
+			text = make(d)
+			try:
+				p = Counting(py_rules(), Tokenizer())
+				with gramlib.budget(gramlib.CALL_BUDGET_S):
+					p.parse(text, 'entry')
+				calls.append(p.calls)
+			except gramlib.BudgetExceeded:
+				outcome = f'budget-exceeded at depth {d}'
+				break
+			except Exception as e:  # noqa: BLE001
+				outcome = f'{exc_enum(e)} at depth {d}'
+				break
+		ratios = [round(b / a, 2) for a, b in zip(calls, calls[1:]) if a]
+		geometric = outcome.startswith('budget-exceeded') or (len(ratios) >= 3 and all(r >= 2.0 for r in ratios[-2:]))
+		if outcome != 'ok' and not outcome.startswith('budget-exceeded'):
+			hist[f'{kind}:{outcome}'] += 1
+			res.findings.append(Finding(key=f'derivable-rejected:nested-{kind}', what=f'a nested sentence is not accepted: {outcome}; text {make(len(calls) + 1)!r}', replay={'text': make(len(calls) + 1), 'outcome': outcome}))
+		elif geometric:
+			hist[f'{kind}:geometric'] += 1
+			last = ratios[-1] if ratios else 3.0
+			est = int(calls[-1] * last ** (12 - len(calls))) if calls else 0
+			res.findings.append(Finding(key=f'cost:exponential-in-nesting:{kind}',
+				what=f'the engine\'s work grows geometrically with the nesting depth of {kind}: _match_symbol calls at depth 1.. = {calls} (factor per level {ratios}){"; " + outcome if outcome != "ok" else ""}; '
+					f'depth 12 extrapolates to ≈ {est:.2e} calls — CPython parses {make(12)[:30]!r}… at once, this engine does not return',
+				replay={'text': make(len(calls)), 'calls': calls, 'ratios': ratios, 'kind': kind, 'cost_probe': True}))
+		else:
+			hist[f'{kind}:polynomial'] += 1
+		if len(res.samples) < 2:
+			res.samples.append({'kind': kind, 'calls': calls, 'ratios': ratios})
+	res.distinct = res.cases
+	res.histogram = dict(hist)
+	return res
+
+
 def guarded(kind: str, name: str, fn, ctx: Ctx):
 	"""Run one stream / search; an exception that escapes it (raised by the code under test at a place the harness did not expect,
 	e.g. while loading the rule modules) becomes a reported result instead of a harness crash (CONVENTIONS addendum 14)."""
@@ -804,6 +869,10 @@ STATEMENTS = {
 	'walrus_ternary_counterexample': 'hence not CPython\'s grouping expr_move[x, ternary[a, c, d]] — the known finding group:walrus-over-ternary (cause: rule structure of py_gram.lark)',
 	'T6_sound_match': 'for every rule set, oracle, cursor and symbol: a successful _match_symbol returns exactly one entry, and it is a derivation (declarative reading DSym/DPat/DSeq/DIter: no cursor, no order of evaluation) of exactly the tokens consumed',
 	'T6_sound': 'every tree parse returns is a derivation of the WHOLE token list from the entrypoint under the declarative reading of the rules: ordered choice and greedy repetition only select among the grammar\'s derivations, they never build a structure outside it',
+	'T6_prefix_rules_py': 'ternary, expr_move, comp_not, unary of the generated table are optional-prefix rules ( G )? N; op_not / op_unary are the bare terminals "not" / "\\OP_UNARY_MINUS" (kernel-decided)',
+	'T6_ternary_shape': 'every derivation of ternary under the shipped rules is a bare expr_move or A if B else D over consecutive spans with children [A, B, D] = CPython IfExp(body, test, orelse)',
+	'T6_walrus_shape': 'every derivation of expr_move is a bare comp_or or T := V with children [T, V] = CPython NamedExpr(target, value)',
+	'T6_prefix_shape': 'every derivation of unary is a bare primary or ONE unary-minus token + primary; of comp_not a bare comp or ONE not + comp (operand levels as in CPython\'s precedence table)',
 	'T6_complete_counterexample': 'the converse (every derivable sentence is accepted) is false for this engine: under x := "a" ("a")* the text `a a` is rejected (greedy repeat from the right, no backtracking); replayed on the real engine by engine-random',
 	'T5_error_line': 'the summary line number is begin_line+1 of an input token, inside [1, #lines] when that token has a non-negative source map',
 	'T5_error_line_counterexample': 'an EOF-derived cause token (source map -1) prints line (0): the unguarded statement is false',
@@ -813,16 +882,21 @@ STATEMENTS = {
 def run(ctx: Ctx) -> int:
 	ok, msg = translate(ctx)
 	proof = common.prove(ctx, PROP, leanchecker=ctx.thorough)
+	streams, searches = [], []
 	with ctx.timed('correspondence'):
-		streams = [guarded('stream', 'engine-py', stream_engine_py, ctx), guarded('stream', 'engine-random', stream_engine_random, ctx), guarded('stream', 'engine-summary', stream_summary, ctx)]
+		for name, fn in [('engine-py', stream_engine_py), ('engine-random', stream_engine_random), ('engine-summary', stream_summary)]:
+			with ctx.timed(f'stream:{name}'):
+				streams.append(guarded('stream', name, fn, ctx))
 	with ctx.timed('search'):
-		searches = [guarded('search', 'cpython-ast', search_cpython, ctx), guarded('search', 'mutated', search_mutated, ctx), guarded('search', 'history', search_history, ctx), guarded('search', 'layout', search_layout, ctx)]
+		for name, fn in [('cpython-ast', search_cpython), ('mutated', search_mutated), ('history', search_history), ('layout', search_layout), ('cost', search_cost)]:
+			with ctx.timed(f'search:{name}'):
+				searches.append(guarded('search', name, fn, ctx))
 	return common.finish(ctx, proof, streams, searches, translate_ok=ok, translate_msg=msg,
 		statements=STATEMENTS,
 		partial={
 			'proved': 'termination for well-formed rule sets incl. both shipped sets, all-or-error, yield/order of leaves, soundness against the declarative reading of any rule set (every returned tree is a derivation of the whole input: T6), flat chains of ladder rules and their grouping, error-line range under the source-map guard',
 			'correspondence_only': 'the Lean matcher equals SyntaxParser on py_rules()/random rule sets; regexp terminals enter as a classification table evaluated by the real re',
-			'search_only': 'agreement with CPython ast (ordered choice never prefers a wrong alternative on py_gram.lark; group_partial covers the binary ladders only: prefix levels not / unary minus, ternary, lambda, walrus, attribute/call/index chains and that the engine ACCEPTS every such expression are search-only), acceptance of every derivable sentence (the general converse of T6 is false: T6_complete_counterexample)',
+			'search_only': 'agreement with CPython ast (ordered choice never prefers a wrong alternative on py_gram.lark; group_partial covers the binary ladders, T6_*_shape the node shapes of conditional / walrus / not / unary minus; WHICH derivation ordered choice selects where the grammar is ambiguous, lambda, attribute/call/index chains, statements, and that the engine ACCEPTS every such sentence are search-only), acceptance of every derivable sentence (the general converse of T6 is false: T6_complete_counterexample)',
 		},
 		assumptions=[
 			'sentences are bounded (≤ ~110 tokens, bracket nesting ≤ 3, block nesting ≤ 3): the engine is exponential in bracket and block nesting and recursive (RecursionError beyond the bound is outside the quantifier)',
@@ -839,6 +913,12 @@ def replay(ctx: Ctx, path: str) -> int:
 		rec = json.load(f)
 	print(json.dumps(rec, indent=1, ensure_ascii=False)[:3000])
 	text = (rec.get('input') or {}).get('text')
+	if rec.get('kind') == 'failing-input' and (rec.get('input') or {}).get('cost_probe'):
+		r = search_cost(Ctx(PROP, rec.get('tier', 'quick'), int(rec.get('seed', 0))))
+		for f in r.findings:
+			print(f'replay: {f.what}')
+		print(f'VIOLATION property={PROP} replay={path}' if r.findings else 'replay: the work no longer grows geometrically')
+		return 1 if r.findings else 0
 	if rec.get('kind') == 'failing-input' and text is not None:
 		world = PyWorld(random.Random(0))
 		tokens = gramlib.real_tokens(world.tokenizer, text)
